@@ -25,7 +25,7 @@ ASSUMPTIONS = [
 ]
 
 EXT = "/Zzqext-1"
-VALUES = ["/12 ms", "/AbC d_3"]
+VALUES = ["/12 ms", "/AbC d_3", "/a:b/c d"]      # the last one: a colon and a later slash inside the value
 
 
 def case_variants(s):
@@ -458,12 +458,40 @@ def reidentify_check(ctx):
     rec.outcome("reidentify")
 
 
+def rebase_check(ctx, cfgs):
+    """Setting the base of an identified tag to the name it already has changes nothing, with or without a namespace."""
+    from hed.models.hed_tag import HedTag
+    rec = ctx.rec
+    for label, schema, model, ns in cfgs:
+        tags = [t for t in model.tags if t.name.casefold() not in model.dup_short][::max(1, len(model.tags) // 60)]
+        for t in tags:
+            for suf in suffixes(t)[:2]:
+                text = ns + t.name + suf
+                rec.n("evaluations")
+                rec.n("transitions", 2)
+                rec.n("distinct_nontrivial")
+                try:
+                    tag = HedTag(text, schema)
+                    before = (tag.short_tag, tag.long_tag, tag.base_tag, tag.extension, tag.tag_exists_in_schema())
+                    tag.short_base_tag = t.name
+                    after = (tag.short_tag, tag.long_tag, tag.base_tag, tag.extension, tag.tag_exists_in_schema())
+                except Exception as e:
+                    rec.violation("C03:rebase:raises:" + type(e).__name__, config=label, text=text, error=repr(e)[:200])
+                    continue
+                if after != before:
+                    rec.violation("C03:rebase:same-base-changes-forms:" + ("prefixed" if ns else "plain"), config=label,
+                                  text=text, before=before, after=after)
+        rec.state(("rebase", label))
+    rec.outcome("rebase")
+
+
 def run(ctx):
     cfgs = build_configs(ctx)
     ctx.rec.notes["bounds"] = {"configs": [c[0] for c in cfgs], "tags_per_config": {c[0]: len(c[2].tags) for c in cfgs},
                                "case_variants": 4, "suffixes": ["", EXT] + VALUES}
     ctx.parallel(worker, cfgs, ctx.seed)
     bulk_check(ctx, cfgs)
+    rebase_check(ctx, cfgs)
     depth = ctx.pick(3, 5)
     ctx.rec.notes["bounds"]["histories"] = {"schemas": HIST_SCHEMAS, "ops": HIST_OPS, "depth": depth,
                                             "subjects": history_subjects()[1], "start_spellings": 3}
